@@ -140,3 +140,31 @@ Definition seq_evald (ignore : nat) (old : list sequence) (b : list (sequence * 
     Some (qsum (map (fun e => seq1_half_sum ignore (fst e) (snd e)) b),
           map (fun oe => seq1_grad ignore (fst oe) (fst (snd oe)) (snd (snd oe))) (combine (resize_to (length b) [] old) b))
   else None.
+
+(* ------------------------------------------------------------------------------------------ *)
+(* NegativeLogLikelihood (include/shark/ObjectiveFunctions/NegativeLogLikelihood.h) as coded.  The logarithm is a Section
+   variable (the theorems hold for every function; the driver passes the floating-point logarithm embedded into Q), the model is
+   used through its single output on one input and weightedParameterDerivative with one-column coefficient rows. *)
+Section NLL.
+Variable lg : Q -> Q.                          (* std::log *)
+Variable minProb : Q.                          (* 1e-100 *)
+Variable peval : vec -> Q.                     (* the single output of mep_model on x; predictions.size2() == 1 *)
+Variable pwpd : list (vec * vec) -> vec.       (* weightedParameterDerivative(batch, predictions, coeffs, state, derivative) *)
+
+Definition Qmaxq (a b : Q) : Q := if Qlt_le_dec a b then b else a.            (* max(predictions, minProb), element-wise *)
+Definition nll_ll (x : vec) : Q := lg (Qmaxq (peval x) minProb).
+(* `if (predictions(j,k) >= minProb) coeffs(j,k) = 1.0 / predictions(j,k)`, 0 otherwise *)
+Definition nll_coeff (x : vec) : Q := if Qlt_le_dec (peval x) minProb then 0 else 1 / peval x.
+(* one batch of eval:  sum(log(max(predictions, minProb))) *)
+Definition nll_bq_eval (b : list vec) : vec := [qsum (map nll_ll b)].
+(* one batch of evalDerivative: threadError += ...; threadDerivative += batchDerivative *)
+Definition nll_bq (b : list vec) : vec := qsum (map nll_ll b) :: pwpd (map (fun x => (x, [nll_coeff x])) b).
+(* eval: one parallel iteration per batch merged in a critical region (any arrival order), error /= numberOfElements, -error *)
+Definition nll_eval_arrived (arrived : list vec) (d : @data vec) : Q := - nth 0 (finish arrived (nelems d)) 0.
+Definition nll_eval (d : @data vec) : Q := nll_eval_arrived (map nll_bq_eval d) d.
+(* evalDerivative: the work split of ErrorFunctionImpl (thread_ranges), merged in a critical region,
+   error /= n; derivative /= n; derivative *= -1; return -error.  Result = value :: derivative *)
+Definition nll_evald_arrived (arrived : list vec) (d : @data vec) : vec := vscale (- (1)) (finish arrived (nelems d)).
+Definition nll_evald (threads : nat) (d : @data vec) : vec :=
+  nll_evald_arrived (partials nll_bq (thread_ranges threads (length d)) d) d.
+End NLL.
